@@ -129,12 +129,16 @@ class SuperNetCombiner(nn.Module):
         :return: a dictionary containing the optimized layer hyperparameter values
         :rtype: Dict[str, Any]
         """
+        # the coefficients sampled here are only reported: those sampled by the last forward pass
+        # (which the cost is computed, and differentiated, from) are put back afterwards
+        sampled_theta_alpha = self.theta_alpha
         with torch.no_grad():
             self.sample_alpha()
         res = {"supernet_branches": {}}
         for i in range(self.n_branches):
             res["supernet_branches"][f"branch_{i}"] = {}
             res["supernet_branches"][f"branch_{i}"]['alpha'] = self.theta_alpha[i].item()
+        self.theta_alpha = sampled_theta_alpha
         return res
 
     @property
